@@ -31,13 +31,13 @@ def kaitai_parse(hx, frame):
     return IpSiteConnectProtocol.from_bytes(frame)
 
 
-def build_frame(hx, slot, ts, call, pkt, frame_type):
-    seq = hx.int(8, "seq")
-    cc = hx.int(4, "cc")
-    dst, src = hx.int(24, "dst"), hx.int(24, "src")
-    r3, r7, r2a, r2b, r1 = hx.bytes(3, "r3"), hx.bytes(7, "r7"), hx.bytes(2, "r2a"), hx.bytes(2, "r2b"), hx.bytes(1, "r1")
-    port = hx.bytes(2, "port")
-    bits = hx.ba(264, "pl")
+def build_frame(hx, slot, ts, call, pkt, frame_type, pfx=""):
+    seq = hx.int(8, pfx + "seq")
+    cc = hx.int(4, pfx + "cc")
+    dst, src = hx.int(24, pfx + "dst"), hx.int(24, pfx + "src")
+    r3, r7, r2a, r2b, r1 = hx.bytes(3, pfx + "r3"), hx.bytes(7, pfx + "r7"), hx.bytes(2, pfx + "r2a"), hx.bytes(2, pfx + "r2b"), hx.bytes(1, pfx + "r1")
+    port = hx.bytes(2, pfx + "port")
+    bits = hx.ba(264, pfx + "pl")
     # "payload that parses as the indicated burst kind": for the voice / sync / wake-up kinds the 48 centre bits are not one of the
     # SYNC patterns (they then carry embedded signalling and the 216 outer bits are opaque vocoder / proprietary content)
     from okdmr.dmrlib.etsi.layer2.elements.sync_patterns import SyncPatterns
